@@ -20,7 +20,7 @@ def table_c():
     return '\n'.join(out)
 def table_b():
     out=['## Appendix B - sensitivity: which check catches which seeded change','',
-         'Each row is a change to iwe-org/iwe written by a sub-agent that saw only the text of one property (three rounds: two changes per property, then a third change for twelve properties and a fourth round for the other eight, once the checks had been strengthened); it compiles, keeps the 252 tests green, and breaks the property only under the stated circumstances. Confirmed by hand (suite green with the patch, demonstration fails with it and passes without), then run against the quick tier of the listed checks with `tools/mutrun.sh` (patched copy of /repo, seed 1). "caught by" = exit 1 with a VIOLATION line. Every change is caught by the check of the property it was written against, with two exceptions explained in the note column: one change became inert and one stopped violating its property when defects it leaned on were repaired in /repo. Checks that missed a change at first and were strengthened until they caught it: C05 (now also judged on a library reached through updates - C05-2), C11 (non-monotone document versions - C11-2), C12 (malformed and unknown notifications - C12-2), C18 (second door through updates - C18-2), C19 (dotted file names - C19-1); before the third round was run: the key pool got dotted names (C05-3), the odd file-name segments percent-hex sequences (C14-3), C18 rooted include cycles in its strict domain (C18-3) and the document generator empty block quotes (C20-3) - all four would have been missed without. The fourth round (C01, C02, C03, C07, C11, C15, C16, C19) led to: fence-like lines (also indented) inside generated code bodies (C01-4), ordered lists of a hundred and more items in the document generator and in the scale family of C03 (C03-4), titles that hold a link to another note in the libraries of C16 (C16-4), and notes that are symbolic links in the trees of C19 (C19-4); C02-4, C07-4, C11-4 and C15-4 were caught by the checks as they stood. Changes written against earlier heads were ported when a fix in /repo touched the same lines (notes.md of each says so).','',
+         'Each row is a change to iwe-org/iwe written by a sub-agent that saw only the text of one property (five rounds: two changes per property, then a third change for twelve properties, a fourth for the other eight and a fifth for those twelve again, each time after the checks had been strengthened); it compiles, keeps the 252 tests green, and breaks the property only under the stated circumstances. Confirmed by hand (suite green with the patch, demonstration fails with it and passes without), then run against the quick tier of the listed checks with `tools/mutrun.sh` (patched copy of /repo, seed 1). "caught by" = exit 1 with a VIOLATION line. Every change is caught by the check of the property it was written against, with two exceptions explained in the note column: one change became inert and one stopped violating its property when defects it leaned on were repaired in /repo. Checks that missed a change at first and were strengthened until they caught it: C05 (now also judged on a library reached through updates - C05-2), C11 (non-monotone document versions - C11-2), C12 (malformed and unknown notifications - C12-2), C18 (second door through updates - C18-2), C19 (dotted file names - C19-1); before the third round was run: the key pool got dotted names (C05-3), the odd file-name segments percent-hex sequences (C14-3), C18 rooted include cycles in its strict domain (C18-3) and the document generator empty block quotes (C20-3) - all four would have been missed without. The fourth round (C01, C02, C03, C07, C11, C15, C16, C19) led to: fence-like lines (also indented) inside generated code bodies (C01-4), ordered lists of a hundred and more items in the document generator and in the scale family of C03 (C03-4), titles that hold a link to another note in the libraries of C16 (C16-4), and notes that are symbolic links in the trees of C19 (C19-4); C02-4, C07-4, C11-4 and C15-4 were caught by the checks as they stood. A fifth round gave the other twelve properties (C04, C05, C06, C08, C09, C10, C12, C13, C14, C17, C18, C20) one more change each, this time asking for a site or mechanism other than the obvious one (arena slots handed out again after a delete, tombstones popped off the tail of the arena, a HashMap::extend that replaces instead of merging, a builder helper that moves the cursor, a memo table keyed without the depth, Url::join instead of path segments, a string-prefix fast path for relative urls, a marker rule that looks at one neighbour only). Ten were caught by the checks as they stood; two were missed by the check of their own property and caught only by neighbours, and both checks were strengthened until they caught them: C06 (C06-5: the key pool had no note whose name starts with the characters of a directory it is not in - `d-x`, `d/ex/k` added; the same gap had let C15-1 pass C06) and C10 (C10-5: notes in which two lists touch had been discarded since the days of the adjacent-lists defect; they are now judged on conservation and on change-list-type twice = identity, which do not need the span model). Changes written against earlier heads were ported when a fix in /repo touched the same lines (notes.md of each says so).','',
          '| seed | breaks | needs, to manifest | caught by (signature) | not caught by | note |','|---|---|---|---|---|---|']
     for d in sorted(glob.glob(f'{R}/seeded/*/meta.json')):
         m=json.load(open(d))
